@@ -27,6 +27,7 @@ EXPLANATION = (
     "state-writing method on one of its components (effect summaries over the call graph); no numpy in-place interface is applied to "
     "a value a function on the processing path was handed (H10)"
     "; no attribute holds a value copy.deepcopy hands over as it is - a weak reference, a closure over an object, a partial application (H4 deepcopy-atomic); an activation object used before does what a new one does (A-sem history-free)"
+    "; firing a rule does not edit the rule (Consequent.modify leaves the conclusions as they were)"
 )
 ASSUMPTIONS = [
     "numpy and copy.deepcopy are deterministic; two runs of pure code on equal inputs give identical floats",
